@@ -32,7 +32,10 @@ class Prog:
 
 
 TIMEOUTS = [(0, 0), (0, 1), (0, 999), (0, 1000), (0, 1001), (0, 1500), (0, 2500), (0, 500000), (1, 0), (2, 500000),
-            (3600, 0), (7200, 0), (86400, 0), (2147483, 0), (3000000, 0)]
+            (3600, 0), (7200, 0), (86400, 0), (2147483, 0), (3000000, 0),
+            # around INT_MAX milliseconds: the conversion to poll's int timeout must clamp, not wrap
+            (2147483, 646999), (2147483, 647000), (2147483, 647001), (2147483, 648000), (2147483, 700000), (2147483, 999999),
+            (2147484, 0), (2147484, 1), (4294967, 296000), (4294967, 297000)]
 
 
 def gen_ops(rnd, P, depth, live, inside):
@@ -114,6 +117,25 @@ def big_program(rnd, nfd, nreg):
         P.main.append("tick 2 0")
         P.main.append("run")
     return P
+
+
+def clamp_programs():
+    """a single timer whose remaining time is around INT_MAX milliseconds when the loop goes to sleep (with and without a
+    shorter timer that has been cancelled, and after small clock advances)"""
+    out = []
+    for (sec, us) in [t for t in TIMEOUTS if t[0] >= 2147483]:
+        for tick in (0, 1, 500, 352000, 999999):
+            P = Prog(1)
+            s1 = P.slot([], 0)
+            P.main.append("reg_timer %d %d %d" % (s1, sec, us))
+            if tick:
+                P.main.append("tick 0 %d" % tick)
+            if tick == 500:
+                s2 = P.slot([], 0)
+                P.main += ["reg_timer %d 0 5000" % s2, "cancel %d" % s2]
+            P.main += ["run", "run", "run"]
+            out.append(P)
+    return out
 
 
 def timer_program(rnd):
